@@ -8,6 +8,7 @@ from kernels import KernelHooks, make_suv, GslMatrix, SUV
 from poly import Poly, CPoly, mat_mul, mat_trace, mat_zero, TOL
 import basis
 import proxies
+from gslmodel import GslHooks
 from stdmodel import StdHooks, make_vector
 
 DIMS = basis.DIMS
@@ -220,7 +221,7 @@ def check_component_roundtrip(db, rep):
     for d in DIMS:
         n += 2
         # GetComponents: identity footprint
-        hooks = StdHooks()
+        hooks = GslHooks()
         this, reg = make_suv('v', d, 'c')
         it = Interp(unit, hooks)
         res = it.call(fG, this, [])
@@ -239,7 +240,7 @@ def check_component_roundtrip(db, rep):
         if ok:
             rep.ok('A.copy.identity')
         # vector constructor
-        hooks = StdHooks()
+        hooks = GslHooks()
         vcell = make_vector('comp', d * d, lambda k: Poly.var('x%d' % k))
         this = Cell(Obj(SUV, None, 'v'), None, 0, 'v')
         it = Interp(unit, hooks)
@@ -334,7 +335,7 @@ def _run_member(db, name, nparams, d, args_fn, pred=None, hooks=None, content=No
     unit = db.unit('SUNalg')
     f = db.one('SUNalg', name, nparams, pred)
     this, reg = make_suv('v', d, 'a', content)
-    hooks = hooks or StdHooks()
+    hooks = hooks or GslHooks()
     it = Interp(unit, hooks)
     res = it.call(f, this, args_fn())
     return f, this, reg, res, hooks, it
